@@ -9,6 +9,9 @@ CHECKS = {
            'from the working tree must exist (< cif_nerr), be non-empty, unique, and match a per-code keyword row. The space is finite, so the check is complete.',
       note='Trusts the per-code keyword table in mc/c20.py (a code without a row is reported).', ref='C20'),
 }
+CHECKS['C04'] = dict(cat='model_checking', tech='explicit-state BFS over API histories on the real library, lock-step Python reference model, dedup on canonical raw tables + handle slots',
+      text='Breadth-first exploration of every history of real API calls up to a depth bound in four small colliding universes (containers on two CIFs; loops/items in a block and its frame; packets incl. iterator edits; destroy). After every transition the return code, the full API dump of every CIF and white-box table invariants are compared with the reference data model; states are deduplicated on a canonical form of the real SQL tables plus handle slots.',
+      note='Reference model mc/model.py is trusted (diffed against the real code on the unchanged tree; disagreements classified in DESIGN.md). Bounded depth and a small alphabet of names/values; handles used only while live.', ref='C04')
 NOT_APPLICABLE = {}
 
 def main():
